@@ -975,7 +975,10 @@ class Sim:
                 self.rows_on_disk()
                 if a.pid in self.rounds:
                     self.rounds[a.pid]["crashed"] = True
-                if kind == "die":
+                if kind == "nodekill" and a.node and a.node.isdigit():
+                    # the whole node dies (walltime, hardware) while its submitter round is at this point
+                    self.kill_node(int(a.node), why="enumerated, node dies inside its submitter round")
+                elif kind in ("die", "nodekill"):
                     self.reply(a, a="die")
                 elif kind == "torn":
                     self.reply(a, a="torn")
